@@ -615,7 +615,8 @@ func (p *Parser) parseProviderType(pkg *packages.Package, providerType types.Typ
 			return nil, fmt.Errorf("fnProvider requires at least 1 type argument")
 		}
 
-		providerFnSig, ok := typeArgs.At(0).(*types.Signature)
+		// the function may have a named or alias function type (type Factory func() *T)
+		providerFnSig, ok := typeArgs.At(0).Underlying().(*types.Signature)
 		if !ok || providerFnSig == nil {
 			slog.Debug("fnType is nil", "providerType", providerType)
 			return nil, fmt.Errorf("fnProvider type argument is not a function signature")
